@@ -40,6 +40,8 @@ type Program struct {
 const repoPath = "github.com/segmentio/kafka-go"
 
 // LoadProgram loads /repo (current working tree) with the harness overlay and builds SSA for everything.
+var loadBuildTags string
+
 func LoadProgram(repoDir string, overlay map[string][]byte, patterns []string, scratch string) (*Program, error) {
 	// private copy of go.mod/go.sum so that /repo is never written
 	os.MkdirAll(scratch, 0o755)
@@ -61,6 +63,10 @@ func LoadProgram(repoDir string, overlay map[string][]byte, patterns []string, s
 		Env:     env,
 		Overlay: overlay,
 		Tests:   false,
+	}
+	if loadBuildTags != "" {
+		// e.g. "purego": the standard library's pure-Go hash implementations instead of assembly (spec "build_tags")
+		cfg.BuildFlags = []string{"-tags=" + loadBuildTags}
 	}
 	pkgs, err := packages.Load(cfg, patterns...)
 	if err != nil {
